@@ -41,5 +41,20 @@ def gen_c07_random(rnd, tier):
             x, y = p[0] / 2.0, p[1] / 2.0
             return ((c * x - s * y) / h + D['t'][0] / 8.0 - x, (s * x + c * y) / h + D['t'][1] / 8.0 - y)
         basin = all(dx * dx + dy * dy <= 0.25 for dx, dy in map(moved, samples))
-        out.append({'m': 'align', 'op': 'curve', 'ref': ELL, 'samples': samples, 'D': D, 'guess': rnd.randint(0, 2), 'off': rnd.choice([[0, 0, 0], [150, -90, 0], [-400, 250, 0]]), 'basin': basin})
+        guess = rnd.randint(0, 3)
+        off = rnd.choice([[0, 0, 0], [150, -90, 0], [-400, 250, 0]])
+        # (guess 3: a rotation of 0.3 rad about the origin as starting guess, the points handed over turned back by it)
+        out.append({'m': 'align', 'op': 'curve', 'ref': ELL, 'samples': samples, 'D': D, 'guess': guess, 'off': off, 'basin': basin})
+    # 3D: the box cases of the enumerated instance with a large pre-rotation handed over as starting guess
+    BOXV = [[0, 0, 0], [4, 0, 0], [0, 0, 2], [4, 0, 2], [0, 3, 0], [4, 3, 0], [0, 3, 2], [4, 3, 2]]
+    BOXF = [[4, 7, 5], [4, 6, 7], [0, 2, 4], [2, 6, 4], [0, 1, 2], [1, 3, 2], [1, 5, 7], [1, 7, 3], [2, 3, 7], [2, 7, 6], [0, 4, 1], [1, 4, 5]]
+    BOXS = [[2, 2, 0], [6, 4, 0], [4, 1, 0], [2, 2, 4], [6, 4, 4], [5, 5, 4], [0, 2, 2], [0, 4, 1], [0, 5, 3], [8, 2, 2], [8, 4, 3], [8, 1, 1],
+            [2, 0, 2], [6, 0, 1], [3, 0, 3], [2, 6, 2], [6, 6, 3], [5, 6, 1]]
+    for _ in range(12 if tier == 'quick' else 200):
+        c, s, h = rnd.choice([(399, 40, 401), (899, -60, 901), (1, 0, 1)])
+        ax = rnd.randint(1, 3)
+        M = {1: [[c, -s, 0], [s, c, 0], [0, 0, h]], 2: [[h, 0, 0], [0, c, -s], [0, s, c]], 3: [[c, 0, s], [0, h, 0], [-s, 0, c]]}[ax]
+        D = {'M': M, 'H': h, 't': [rnd.choice((2, -1, 1)), rnd.choice((-2, 2, 1)), rnd.choice((1, -1, 2))], 'tden': 8}
+        out.append({'m': 'align', 'op': 'mesh', 'vpos': BOXV, 'faces': BOXF, 'samples': BOXS, 'off': rnd.choice([[0, 0, 0], [150, -90, 60]]), 'D': D,
+                    'mode': 'plane', 'guess': 0, 'swap': rnd.randint(1, 4), 'basin': True})
     return out
